@@ -21,6 +21,9 @@ import (
 	"strings"
 
 	"github.com/ipfs/go-cid"
+	cidlink "github.com/ipld/go-ipld-prime/linking/cid"
+	mh "github.com/multiformats/go-multihash"
+	"github.com/storacha/go-ucanto/core/ipld/block"
 	"github.com/ipld/go-ipld-prime/datamodel"
 	"github.com/ipld/go-ipld-prime/node/basicnode"
 	"github.com/storacha/go-ucanto/core/dag/blockstore"
@@ -446,6 +449,43 @@ func c18Run() ([]c18Rec, error) {
 			return nil, fmt.Errorf("program tok-slashkey-%d: %v", k, err)
 		}
 		if err := tokRec(fmt.Sprintf("tok-slashkey-%d", k), "ed1", d); err != nil {
+			return nil, err
+		}
+	}
+	// H. option ORDER (a later option overrides an earlier one) and attached blocks of every CID form in the archive
+	for k, opts := range [][]delegation.Option{
+		{delegation.WithExpiration(2000000123), delegation.WithNoExpiration()},
+		{delegation.WithNoExpiration(), delegation.WithExpiration(2000000123)},
+		{delegation.WithExpiration(2000000123), delegation.WithExpiration(2000000456)},
+		{delegation.WithNonce("first"), delegation.WithNonce("second"), delegation.WithNotBefore(7), delegation.WithNotBefore(9), delegation.WithExpiration(1900000000)},
+	} {
+		d, err := delegation.Delegate(keys["ed2"], keys["ed0"].DID(), []ucan.Capability[ucan.CaveatBuilder]{
+			ucan.NewCapability[ucan.CaveatBuilder]("store/add", keys["ed2"].DID().String(), nodeNb{c18Caveats[0]()})}, opts...)
+		if err != nil {
+			return nil, fmt.Errorf("program tok-optorder-%d: %v", k, err)
+		}
+		if err := tokRec(fmt.Sprintf("tok-optorder-%d", k), "ed2", d); err != nil {
+			return nil, err
+		}
+	}
+	{
+		d, err := delegation.Delegate(keys["ed2"], keys["ed0"].DID(), []ucan.Capability[ucan.CaveatBuilder]{
+			ucan.NewCapability[ucan.CaveatBuilder]("store/add", keys["ed2"].DID().String(), nodeNb{c18Caveats[1]()})},
+			delegation.WithExpiration(1900000000), delegation.WithNonce("attached"))
+		if err != nil {
+			return nil, err
+		}
+		for _, data := range [][]byte{[]byte("inline value"), {}, bytes.Repeat([]byte{7}, 100)} {
+			idh, _ := mh.Sum(data, mh.IDENTITY, -1)
+			if err := d.Attach(block.NewBlock(cidlink.Link{Cid: cid.NewCidV1(0x55, idh)}, data)); err != nil {
+				return nil, err
+			}
+			sh, _ := mh.Sum(data, mh.SHA2_256, -1)
+			if err := d.Attach(block.NewBlock(cidlink.Link{Cid: cid.NewCidV1(0x55, sh)}, data)); err != nil {
+				return nil, err
+			}
+		}
+		if err := tokRec("tok-attachments", "ed2", d); err != nil {
 			return nil, err
 		}
 	}
